@@ -14,6 +14,7 @@ EXPLANATION = (
     "code dominated by the forked child's branch is exempt (C13). C12.2 the same rule for the ring mappings of io_uring set-up (mmap -> munmap / stored in the returned IoUring). "
     "C12.3 an OwnedFd is only ever built from a descriptor created in the same function, received from an unsafe constructor's caller, or taken from another owner - never from a Copy field or plain parameter in safe code. "
     "C12.4 Drop for OwnedFd closes its field on every path exactly once; OwnedFd is neither Clone nor Copy; IoUring's Drop closes its fd once. C12.5 rusl::unistd::close is never applied to the field of a live OwnedFd outside its Drop. "
+    "C12.6 type-level witnesses: OwnedFd is neither Clone nor Copy, its descriptor field is private, creating an owner from a raw descriptor is unsafe; "
     "NOT decided: descriptors the kernel creates for io_uring SQEs (numbers arrive at run time), the forked child's table, /proc truth.")
 ASSUMPTIONS = ["creator table derived from syscall numbers at the wrappers' raw syscall sites", "unwinding is not considered (the library aborts on panic)",
                "a callee that merely receives a raw descriptor (Copy) does not take ownership unless its summary says so"]
@@ -32,6 +33,9 @@ def run(ck, progs, tier):
     for cfgname, prog in progs.items():
         ck.set_config(prog)
         run_one(ck, prog)
+    # type-level witnesses (compile_fail doctests with compiling twins) against the public API of the tree under analysis
+    from ..engine import witness
+    witness.check(ck, ck.repo, "C12", "C12.6")
 
 
 def syscall_names_in(prog, fn):
